@@ -76,7 +76,7 @@ pub async fn run_conn_h2(
     obs.conn_id = Some(conn_id);
     // Over TLS the client offers "h2" through ALPN; otherwise prior-knowledge
     // HTTP/2 over the plain connection.
-    let (sender, conn_task) = if tls {
+    let (sender, mut conn_task) = if tls {
         let connector = tokio_rustls::TlsConnector::from(crate::client_tls::client_config_h2());
         let name = rustls::pki_types::ServerName::try_from("sim").unwrap();
         let stream = match tokio::time::timeout(ms(crate::exec::LIVENESS_MS), connector.connect(name, end.clone())).await {
@@ -279,9 +279,35 @@ pub async fn run_conn_h2(
         }
     }
     obs.by_req = by_req;
+    // An HTTP/2 client that keeps its idle connection: `AwaitEof{max_ms}`
+    // holds the connection (and the request sender) until the server ends it
+    // or the client's patience runs out; `Sleep` steps after it are how long
+    // the client lingers once it has seen the end.
+    let mut ended_by_server = false;
+    if !left {
+        let mut patience = None;
+        let mut linger = 0u64;
+        for st in &plan.steps {
+            match st {
+                crate::plan::Step::AwaitEof { max_ms } => patience = Some(*max_ms),
+                crate::plan::Step::Sleep { ms } if patience.is_some() => linger += *ms,
+                _ => {}
+            }
+        }
+        if let Some(p) = patience {
+            if tokio::time::timeout(ms(p), &mut conn_task).await.is_ok() {
+                ended_by_server = true;
+                obs.eof = true;
+                obs.eof_seq = Some(world.log(Ev::ClientEof, conn_id, 0, 0, 0));
+                tokio::time::sleep(ms(linger)).await;
+            }
+        }
+    }
     drop(sender);
-    conn_task.abort();
-    let _ = conn_task.await;
+    if !ended_by_server {
+        conn_task.abort();
+        let _ = conn_task.await;
+    }
     if let (true, Some((_, reset))) = (left, leave) {
         let q = world.n_events();
         if reset {
